@@ -1,7 +1,7 @@
 """C06 - reassembly never delivers a message that was not sent in full.
 
 Bounded model checking of the real FrameQueueFrag.  Ground truth: s senders (symbolic
-pairwise distinct origins, symbolic frame ids that MAY coincide, symbolic user types), each
+origins and frame ids that MAY coincide (not both: one sender's messages carry different ids), symbolic user types), each
 sends one message of f fragments produced by the reference fragmenter (specs/frag_spec).
 The channel is a symbolic schedule: k events, event i delivers fragment number pick_i of
 the pool (symbolic index: drop, duplicate, reorder, interleave and stray more/last without
@@ -30,9 +30,9 @@ def h_schedule(ctx, frags, events, body):
     msgs, pool = [], []
     for s, f in enumerate(frags):
         origin = ctx.int("origin%d" % s, 0, 0xFFF)
-        for m in msgs:
-            ctx.assume(origin != m["origin"])
         fid = ctx.int("id%d" % s, 0, 0xFFFF)
+        for m in msgs:  # different senders, or two messages of one sender (which then carry different frame ids)
+            ctx.assume(s_or(origin != m["origin"], fid != m["id"]))
         mtype = ctx.int("type%d" % s, 0, 127)
         data = blist(ctx.bytes("msg%d" % s, f * body))
         msgs.append(dict(origin=origin, id=fid, type=mtype, data=data))
@@ -89,16 +89,17 @@ def h_schedule(ctx, frags, events, body):
     ctx.reached()
 
 
-def h_inorder(ctx, frags, body):
-    """liveness side (keeps the repair honest): fragments delivered in order, once each, are reassembled"""
+def h_inorder(ctx, n):
+    """liveness side (keeps any repair honest): the real-size fragments of an n-byte message delivered in order,
+    once each, are reassembled into exactly that message"""
     from circuitpython_nrf24l01.network.structs import RF24NetworkFrame, FrameQueueFrag
     from vsym.core import SBytes
     me = ctx.int("to_node", 0, 0xFFF)
     origin, fid, mtype = ctx.int("origin", 0, 0xFFF), ctx.int("id", 0, 0xFFFF), ctx.int("type", 0, 127)
-    data = blist(ctx.bytes("msg", (frags - 1) * body + 1))
+    data = blist(ctx.bytes("msg", n))
     q = FrameQueueFrag()
     frame = RF24NetworkFrame()
-    for fr in FS.fragments(origin, me, fid, mtype, data, frag_size=body):
+    for fr in FS.fragments(origin, me, fid, mtype, data, frag_size=24):
         for k in ("from_node", "to_node", "frame_id", "message_type", "reserved"):
             setattr(frame.header, k, fr[k])
         msg = [fr[("b", j)] for j in range(fr["len"])]
@@ -122,17 +123,17 @@ def jobs(tier):
     for frags, events in plan:
         out.append(Job("symbolic-delivery-schedule", h_schedule, dict(frags=frags, events=events, body=2),
                        cost=len(frags) * events ** 2))
-    for f in range(2, 8):
-        out.append(Job("in-order-stream-is-delivered", h_inorder, dict(frags=f, body=24 if tier == "thorough" or f < 4 else 3)))
+    for n in ((25, 48, 49, 96, 121, 137, 144) if tier == "quick" else range(25, 145)):
+        out.append(Job("in-order-stream-is-delivered", h_inorder, dict(n=n)))
     return out
 
 
 META = {
     "bounds": {"quick": "1-2 senders x 2-4 fragments, 3-5 delivery events, every event a symbolic pick from the fragment pool, "
                         "symbolic dequeue points, symbolic origins/ids (may coincide)/types 0..127/contents, 2-byte fragment "
-                        "bodies; plus in-order streams of 2..7 fragments",
+                        "bodies; plus real-size in-order streams for messages of 25..144 bytes",
                "thorough": "up to 3 senders, up to 7 fragments, up to 6 events"},
-    "outside": ["more than 3 senders / 7 fragments / 6 events", "two different messages from the same origin in flight",
+    "outside": ["more than 3 senders / 7 fragments / 6 events", "more than one message per (origin, frame id); two messages of one origin carry different frame ids (each header gets a fresh id)",
                 "original message types above 127 (NETWORK_EXT_DATA 131 is propagated by reference, see structs.py)",
                 "24-byte fragment bodies in the schedule obligation (the queue never looks at the body length; bodies are 2 bytes "
                 "so that picks merge)"],
